@@ -334,6 +334,16 @@ func c16Cases(thorough bool) (out []c16Case) {
 		"AGGREGATE|h|k∥1∥count(x)≔notanumber∥sum(y)≔∥", "AGGREGATE|h|∥∥∥∥", "AGGREGATE|h|a∥1∥k≔a∥s≔n/a∥count(x)≔1∥y≔x∥", "AGGREGATE|h|b∥2∥k≔b∥s≔7∥count(x)≔2∥max(y)≔1e+06∥", "AGGREGATE|h|c∥1∥k≔c∥count(x)≔1∥", ".syn close connection", ".", ".unknown",
 		"REMOTE|h|100|1|f|text with € and \xff bytes", "REMOTE|h|100|1|f|a\nb", "plain text\n", "\n\n", "REMOTE|h|100|1|f|GET / HTTP/1.1\r\n", "SERVER|h|WARN|progress 50%\r", "plain\r\n", "CLIENT|h|ERROR|x\r\r\n",
 	}
+	// text fields that are prefixes / near misses of the severity words the painter looks for, of every length
+	for _, w := range []string{"WARN", "ERROR", "FATAL"} {
+		for i := 1; i <= len(w); i++ {
+			for _, tail := range []string{"", "x", "\n", " "} {
+				t := w[:i] + tail
+				recs = append(recs, "REMOTE|h|100|1|f|"+t, "SERVER|h|"+t, "CLIENT|h|"+t+"|x", "CLIENT|h|"+t)
+			}
+		}
+	}
+	recs = append(recs, "REMOTE|h|100|1|f|EOF\n", "REMOTE|h|100|1|f|Foo\n", "SERVER|h|FAIL", "REMOTE|h|100|1|f|E", "REMOTE|h|100|1|f|\n")
 	var small []string
 	c10Seq(toks, 1, "", func(m string) { small = append(small, m) })
 	second := append(append([]string{}, recs...), small...)
@@ -381,7 +391,7 @@ func init() {
 		ID:    "C16",
 		Level: "exploration",
 		Rule: "server byte streams enumerated exhaustively: every message of <=4 (quick) / <=5 (thorough) tokens over a 22-token alphabet (incl. CR and CRLF) (record words, '|', '.', the hidden close message, numbers, severities, " +
-			"newline, the 0xAC message delimiter, the aggregate delimiters, an escape sequence), 30 well-formed/nearly well-formed records followed by every record or token, 5 records of 32-70 KB (alone, followed by a short record, split at the transport boundary), each record split across two Write calls " +
+			"newline, the 0xAC message delimiter, the aggregate delimiters, an escape sequence), 30 well-formed/nearly well-formed records and ~230 records whose text field is a prefix or near miss of a severity word, each followed by every record or token, 5 records of 32-70 KB (alone, followed by a short record, split at the transport boundary), each record split across two Write calls " +
 			"at every byte; each stream is fed to the real ClientHandler, MaprHandler (three queries, incl. order by a plain field and limit; the result report is produced afterwards) and HealthHandler twice (colours off/on) under the controlled scheduler; oracle: no panic in any goroutine and " +
 			"strip(coloured) == strip(uncoloured) where strip removes SGR escape sequences (applied to both sides); the same for 8 records with the colours taken from the repository's example JSON configuration file; non-trivial = the stream makes the client print something; " +
 			"plus, under ALL schedules within two deviations: a stream with the hidden close message written to each handler while one or two other goroutines shut the handler down and a third reads its commands (the tear-down of a connection), and AGGREGATE messages of two servers arriving while the reporter reads the shared result set: no panic, no deadlock, every message counted once",
